@@ -20,7 +20,8 @@ CLAIMED = {
               'independent oracle and concurrent publishers under a permuting event loop.' 
               'Also theorems about close() in flight (the real close() suspends between keys): a key leaves the dict only with its item closed, a closed item stays closed, and whatever other tasks do between the iterations, when the loop ends every key that was in the dict — or was created meanwhile — has been closed; the atomic close of the serial model equals the loop run without interference. Tied by a close-race scenario (subscribe / publish while close() is in flight, random schedules): every subscription started before close() returned terminates.' 
               'Also 65–200 subscribers on one topic with some leaving early.' 
-              ' Every operation of a scenario is bounded in event-loop turns: an aclose/end/close that never returns is reported with the operations before it.'),
+              ' Every operation of a scenario is bounded in event-loop turns: an aclose/end/close that never returns is reported with the operations before it.' 
+              " Also two or three brokers alive at once with equal keys: each broker's topics, latest values and endings are its own."),
         design='§6 C08, §5 model B',
         note=COMMON_NOTE + 'Assumes F2 (publishing never suspends), which the permuting-loop runs exercise.',
         technique='Lean 4 invariant proof by induction over operation lists + differential correspondence (hand-written model)'),
@@ -132,7 +133,8 @@ CLAIMED = {
               'policy × trace_threads × trace_modules, run through the child\'s real trace machinery in-process against an untraced reference execution '
               '(per-thread/task stdout, return value, exception type, innermost line, traceback shape), plus the forms through a real spawn child.' 
               'Also 3–6 threads printing lines assembled from partial writes at the same time under a 1 µs thread-switch interval, and an exact correspondence of the traceback-cleaning model with the real clean-up on every traceback shape up to 5 (7) frames.' 
-              'Also BaseException-only exceptions raised in nested functions (all user frames compared), results of scripts that end with thousands of events in flight, threads left behind by the script.'),
+              'Also BaseException-only exceptions raised in nested functions (all user frames compared), results of scripts that end with thousands of events in flight, threads left behind by the script.' 
+              " Also script files with a sibling module, a module of the same name earlier on sys.path and the script's directory already on sys.path (real runs)."),
         design='§6 C04',
         note=COMMON_NOTE + 'Partial by nature: the quantifier “whatever commands are issued, any script” ranges over CPython\'s semantics under sys.settrace, '
              'which is sampled by the generator, not proved. stderr (CPython\'s RuntimeWarning about inlined comprehensions under a trace function) and '
@@ -166,7 +168,8 @@ CLAIMED = {
               'Also a function that returns at once while its process takes 4.5 s to exit: awaiting the handle yields only once the process has been reaped.' 
               'Also kill/terminate from another task while the handle of a lingering process is awaited, and a fresh awaiter of the handle at every event-loop iteration around the exit.' 
               ' Also log collection with a blocking handler in the parent: when awaiting the handle yields, every record of the child has been handled and no helper task is left.' 
-              ' Also requests repeated at every event-loop turn until awaiting the handle yields — hence after the child has been reaped — by terminate, kill and (after a first deadly request) interrupt: none may raise (F-H2, fixed).'),
+              ' Also requests repeated at every event-loop turn until awaiting the handle yields — hence after the child has been reaped — by terminate, kill and (after a first deadly request) interrupt: none may raise (F-H2, fixed).' 
+              ' Also functions that raise CancelledError / KeyboardInterrupt / GeneratorExit (an outcome like any other), and an awaiter cancelled while the child runs (open finding F-H3).'),
         design='§6 C17, §5 model H',
         note=COMMON_NOTE + 'Partial by nature: reaping, thread clean-up and what the future resolves to for each way of dying are concurrent.futures/'
              'multiprocessing behaviour (modelled in futureOf, observed by the sweep). Defect F-H1 (event loop blocked in executor shutdown) found and fixed here.',
